@@ -63,7 +63,7 @@ CLAUSES = {
     "duplicated abscissae refused with ValueError": "proved [ideal, ANY n >= 2, two-list form: any pair of abscissae closer than tol gives ValueError (C12_duplicates_any: nested duplicate-test loops, first flagged pair in scan order)]; other input forms searched (exact and 5e-11-apart duplicates) + correspondence; 'duplicated' follows the library's documented tolerance semantics: abscissae closer than the tolerance (the oracle uses 0 and 5e-11) must be refused",
     "root(): returned abscissa inside [xl, xh] (ordered, clamped) with |interpolant| <= tol": "proved [ideal, ANY table, max_iter in 0..4999; partial correctness: termination with a root unproved - the outcome is such a float or ValueError, nothing else (OutOfFuel/TypeError/Unsupported excluded): C12_root_step (loop, fuel induction), C12_root_sound (entry paths in-table incl. xl = 0, reversed, reversed+outside, clamped-low, default; 'only xh above the table' not a separate theorem); callee assumption (__call__/derivative return float or ValueError) discharged for EVERY stored table of n = 3..64 points (C12_root_any: no assumption left; __call__/derivative proved total by loop induction) and for the symbolic 3-point table (C12_root_witness)]; proved [B64, explicit grid of 24 tables x all unequal limit pairs: C12_grid_b64, 756 roots found: C12_grid_found]; the oracle demands |P_exact(r)| <= get_tolerance() + 64 units in the last place of the Horner sums (rounding of the object's own evaluation, eval_noise), or r closer than the tolerance to a node that is a zero in that sense (tolerance semantics); searched ALSO on objects with a non-default tolerance (set_tolerance 1e-13, 1e-12, 1e-8, 1e-6: the residual demand follows get_tolerance()) incl. intervals with a limit whose function value is between tol/10 and 1000 tol",
     "root(): a value IS returned whenever the interpolant changes sign (convergence within max_iter)": "unproved (searched): not provable in general; a step towards it after the repair edeb4b4: every fallback step (derivative too small) shrinks the bracket to at most 90 % (C12_root_progress); holds on the B64 grid (C12_grid_b64: ValueError only without a clear sign change); searched on ALL tables; known finding root-tolerance-below-rounding-noise-large-ordinates: next to ordinates above 1000 the absolute tolerance 1e-10 can be below what binary64 resolves (evaluation noise >= tol/2, or no float near the zero has |value| <= tol) and root()/minmax() give up with 'Too many iterations' - everything else is root-not-found / minmax-not-found",
-    "minmax(): abscissa inside the interval where the derivative vanishes": "proved [B64, grid only: C12_grid_b64 with the independent Lagrange derivative]; no ideal-instance theorem; searched; searched also with non-default tolerances; known finding minmax-ignores-tighter-object-tolerance: the inner object of minmax() has the default tolerance 1e-10, so with a tighter object tolerance the extremum is only located to 1e-10",
+    "minmax(): abscissa inside the interval where the derivative vanishes": "proved [B64, grid only: C12_grid_b64 with the independent Lagrange derivative]; no ideal-instance theorem; searched; searched also on objects with non-default tolerances, held to get_tolerance() like root() (minmax() handing its tolerance to the inner object was repaired in /repo after this oracle found it)",
     "conjunction helpers return the time of zero interpolated difference": "unproved (searched): independent Lagrange interpolation of the coordinate differences, 1e-9; bit-exact correspondence of the four helpers",
     "Angle ordinates (conjunction helpers) with rough data": "refuted: known finding angle-ordinates-newton-derivative-wraps - Interpolation([-3..3],[Angle(a) for a in [-1.57,-3.0,-1.29,-0.7,-0.33,-0.06,0.28]]).root() raises ValueError('Too many iterations'), derivative(Angle(2.5)) = 14.5165 instead of 0.0815",
 }
@@ -252,7 +252,14 @@ class Oracle:
         self.nontrivial = 0
         self.samples = []
 
+    def n_other(self):
+        return sum(1 for f in self.findings if f["key"] not in (self.NOISE_KEY, self.KNOWN_ANGLE))
+
     def report(self, key, what, ctor, call, inp):
+        # keys that carry an envelope of a recorded finding are kept to a few examples each, so that they can never
+        # crowd out (or cut short the search for) anything else
+        if key in (self.NOISE_KEY, self.KNOWN_ANGLE) and sum(1 for f in self.findings if f["key"] == key) >= 3:
+            return
         if len(self.findings) < 60:
             self.findings.append({"key": key, "what": what, "input": inp, "replay": REPLAY % (ctor, call)})
 
@@ -441,17 +448,9 @@ class Oracle:
                 return True
         return False
 
-    MINMAX_TOL_KEY = "minmax-ignores-tighter-object-tolerance"
-
     def zero_key(self, what, xs, ys, it, Q, r):
-        """key for a returned abscissa that is not a zero to the object's tolerance.  minmax() looks for the zero with a
-        NEW Interpolation object of the derivative, which has the default tolerance 1e-10 whatever the object's own
-        tolerance is: with a tighter tolerance (set_tolerance(t), t < 1e-10) the extremum is only located to 1e-10.
-        Envelope of that finding: minmax only, object tolerance below 1e-10, and the abscissa IS a zero of the
-        derivative to the default 1e-10 (plus the evaluation rounding).  Everything else: <what>-not-a-zero."""
-        if what == "minmax" and it.get_tolerance() < 1e-10 and \
-                abs(peval(Q, r)) <= Fr(1, 10**10) + 64 * eval_noise(what, xs, ys, Q, r):
-            return self.MINMAX_TOL_KEY
+        """key for a returned abscissa that is not a zero to the object's tolerance (minmax() on an object whose tolerance
+        was tightened is held to that tolerance like root(): repaired in /repo, prime.set_tolerance(self._tol))"""
         return what + "-not-a-zero"
 
     def noise_excused(self, what, xs, ys, it, Q, a, b, ex):
@@ -465,7 +464,9 @@ class Oracle:
         OR no float at all has a computed |value| <= tol (the slope is so steep that one unit in the last place of the
         abscissa changes the value by more than the tolerance: the stopping criterion is unreachable in binary64)."""
         big = max(abs(float(peval(Q, t))) for t in xs) if what == "minmax" else max(abs(y) for y in ys)
-        if big <= 1000.0 * (it.get_tolerance() / 1e-10): return False      # 1000 for the default tolerance: the ratio max|y| / tol > 1e13
+        # the tolerance that stops the iteration is the object's (minmax() hands it on to its inner object)
+        efftol = it.get_tolerance()
+        if big <= 1000.0 * (efftol / 1e-10): return False      # 1000 for the default tolerance: the ratio max|y| / tol > 1e13
         if "Invalid interval" in str(ex):
             # same cause seen at a LIMIT: the exact value there is smaller than the error of the object's own evaluation,
             # so the computed sign at the limit is noise and the sign test refuses the interval
@@ -477,7 +478,7 @@ class Oracle:
         if "Too many iterations" not in str(ex): return False
         try:
             obj = it if what == "root" else self.I(list(xs), [it.derivative(t) for t in xs])
-            tol = it.get_tolerance()
+            tol = efftol
             lo, hi = float(a), float(b); flo, fhi = peval(Q, lo), peval(Q, hi)
             if flo == 0 or fhi == 0 or (flo > 0) == (fhi > 0): return False
             for _ in range(200):
@@ -532,13 +533,17 @@ class Oracle:
                     key = self.NOISE_KEY if self.noise_excused(what, xs, ys, it, P, a, b, ex) else what + "-not-found"
                     self.report(key, "%s raises %s(%s) although the %s is %.3g at %r and %.3g at %r (sign change)"
                                 % (call, type(ex).__name__, " ".join(str(ex).split()), "interpolant" if what == "root" else "derivative",
-                                   float(peval(P, a)), a, float(peval(P, b)), b), ctor, call, [xs, ys, xl, xh]); return
+                                   float(peval(P, a)), a, float(peval(P, b)), b), ctor, call, [xs, ys, xl, xh])
+                    if key == self.NOISE_KEY: continue
+                    return
                 if not isinstance(r, (int, float)) or not (a <= r <= b):
                     self.report(what + "-outside-interval", "%s = %r is outside [%r, %r]" % (call, r, a, b), ctor, call, [xs, ys, xl, xh]); return
                 res = peval(P, r)
                 if not self.is_zero(what, xs, ys, it, P, r):
-                    self.report(self.zero_key(what, xs, ys, it, P, r), "%s = %r where the %s is %.3g (not zero to the object's tolerance %r)"
-                                % (call, r, "interpolant" if what == "root" else "derivative", float(res), it.get_tolerance()), ctor, call, [xs, ys, xl, xh]); return
+                    zk = self.zero_key(what, xs, ys, it, P, r)
+                    self.report(zk, "%s = %r where the %s is %.3g (not zero to the object's tolerance %r)"
+                                % (call, r, "interpolant" if what == "root" else "derivative", float(res), it.get_tolerance()), ctor, call, [xs, ys, xl, xh])
+                    return
                 done += 1
         if done: self.nontrivial += 1
         # a limit very close to (not at) a zero: |function value| at the limit between tol/10 and 1000 tol.  The
@@ -568,13 +573,17 @@ class Oracle:
                         key = self.NOISE_KEY if self.noise_excused(what, xs, ys, it, P, ea, eb, ex) else what + "-not-found"
                         self.report(key, "%s raises %s(%s) although the %s changes sign (a limit lies %.3g tolerances from the zero %r in function value)"
                                     % (call, type(ex).__name__, " ".join(str(ex).split()), "interpolant" if what == "root" else "derivative", fac, z),
-                                    ctor, call, [xs, ys, xl, xh]); return
+                                    ctor, call, [xs, ys, xl, xh])
+                        if key == self.NOISE_KEY: continue
+                        return
                     if not isinstance(r, (int, float)) or not (ea <= r <= eb):
                         self.report(what + "-outside-interval", "%s = %r is outside [%r, %r]" % (call, r, ea, eb), ctor, call, [xs, ys, xl, xh]); return
                     if not self.is_zero(what, xs, ys, it, P, r):
-                        self.report(self.zero_key(what, xs, ys, it, P, r), "%s = %r where the %s is %.3g, tolerance of the object %r (the limit lies %.3g tolerances from the zero in function value)"
+                        zk = self.zero_key(what, xs, ys, it, P, r)
+                        self.report(zk, "%s = %r where the %s is %.3g, tolerance of the object %r (the limit lies %.3g tolerances from the zero in function value)"
                                     % (call, r, "interpolant" if what == "root" else "derivative", float(peval(P, r)), otol, fac),
-                                    ctor, call, [xs, ys, xl, xh]); return
+                                    ctor, call, [xs, ys, xl, xh])
+                        return
         # interval without a table point in common / equal limits: must not return anything silly
         self.n += 1
         try:
@@ -979,7 +988,7 @@ def search(rng, tier, deep):
         kinds[kind] = kinds.get(kind, 0) + 1
         r = O.check_values(rng, xs, ys, cs)
         if r is None:
-            if len(O.findings) >= 40: break
+            if O.n_other() >= 40: break
             continue
         it, P, D, ctor = r
         O.check_refusals(rng, xs, ys, it, ctor)
@@ -993,7 +1002,7 @@ def search(rng, tier, deep):
             O.check_roots(rng, xs, ys, it, P, ctor, "root", nmax=3, tol=otol)
             if n >= 3:
                 O.check_roots(rng, xs, ys, it, D, ctor, "minmax", nmax=3, tol=otol)
-        if len(O.findings) >= 40: break
+        if O.n_other() >= 40: break
     # documented examples
     I = O.I
     for ctor, call, want in (("[7, 8, 9], [0.884226, 0.877366, 0.870531]", "round(i(8.18125), 6)", 0.876125),
